@@ -52,6 +52,10 @@ STUBS = {
     # times longer than its one-line input (and, for big modules, far more than a pipe buffer longer)
     "verbose_style": "#!/bin/sh\ni=0; while [ $i -lt 300 ]; do echo '// generated file - do not edit - formatted with the house style'; i=$((i+1)); done\n"
                      "%s \"$@\" | sed 's/^/                                /'\n",
+    # tool-selection variables other programs honour (RUSTFMT, as bindgen / cargo fmt read it) name a formatter that fails
+    # after printing part of its output, while the formatter on PATH works: the result is the program, nothing else
+    "envvar_RUSTFMT_fails_after_partial_output": "#!/bin/sh\nhead -c 300\ncat >/dev/null\nexit 1\n",
+    "envvar_RUSTFMT_killed_after_partial_output": "#!/bin/sh\nhead -c 500\ncat >/dev/null\nkill -9 $$\n",
 }
 ONLY_BIG = {"exit0_partial_without_reading_all"}     # for small inputs the whole input fits the pipe: the stub is then a lying formatter, outside the property
 # model outcome per fault: (constructor term for small output, for big output), expected use_formatted
@@ -74,6 +78,8 @@ MODEL = {
     "exit1_with_diagnostics": ("Ran WOk ExitN true true",) * 2,
     "status1_complete_garbage": ("Ran WOk ExitN true false",) * 2,
     "verbose_style": ("Ran WOk Exit0 true false",) * 2,
+    "envvar_RUSTFMT_fails_after_partial_output": ("Ran WOk Exit0 true false",) * 2,      # the variable is not an input: the PATH formatter runs
+    "envvar_RUSTFMT_killed_after_partial_output": ("Ran WOk Exit0 true false",) * 2,
 }
 
 
@@ -106,18 +112,31 @@ def run(tier, seed, replay):
     derive_sets = [{}, {"serde": True, "bm_vertex": True}, {"serde": True, "mv": "Glam"}, {"bm_vertex": True, "mv": "Nalgebra"}, {"serde": True}]
     base_cases = [{"id": i, "wgsl": w, "include": None, "opts": dict(derive_sets[i % len(derive_sets)], rustfmt=False), "want_text": True}
                   for i, (_, w) in enumerate(shs)]
+    # one source, one option set, three ways of naming the source (embedded, two include paths), generated in ONE process one
+    # after the other: each call's text is ITS program (with the formatter on as with it off)
+    twin_src = shs[1][1]
+    for inc in (None, "a.wgsl", "other/path.wgsl", None, "a.wgsl"):
+        shs.append(("same_source_%s" % (inc or "embedded"), twin_src))
+        base_cases.append({"id": len(base_cases), "wgsl": twin_src, "include": inc, "opts": {"rustfmt": False}, "want_text": True})
     base = run_driver(base_cases, workdir, "base")
     fmt_cases = [dict(c, opts=dict(c["opts"], rustfmt=True)) for c in base_cases]
     violations, broken, evals, samples, dist = [], [], 0, [], {}
     coq_items = []
     for fault, script in STUBS.items():
-        if fault in ("real", "slow", "verbose_style") and not REAL_RUSTFMT:
+        if (fault in ("real", "slow", "verbose_style") or fault.startswith("envvar_")) and not REAL_RUSTFMT:
             continue
         stubdir = os.path.join(workdir, "stub_" + fault)
         sh(["rm", "-rf", stubdir])
         os.makedirs(stubdir)
+        extra_env = {}
         if script is None:
             path_env = os.path.dirname(REAL_RUSTFMT) + ":/usr/bin:/bin"
+        elif fault.startswith("envvar_"):
+            p = os.path.join(stubdir, "preferred-rustfmt")
+            open(p, "w").write(script)
+            os.chmod(p, os.stat(p).st_mode | stat.S_IXUSR | stat.S_IXGRP | stat.S_IXOTH)
+            path_env = os.path.dirname(REAL_RUSTFMT) + ":/usr/bin:/bin"
+            extra_env = {"RUSTFMT": p}
         else:
             if script:
                 p = os.path.join(stubdir, "rustfmt")
@@ -130,7 +149,7 @@ def run(tier, seed, replay):
             for c in fmt_cases:
                 f.write(json.dumps(c) + "\n")
         try:
-            p = subprocess.run([DRIVER, "gen", cin, cout], env={"PATH": path_env, "HOME": os.environ.get("HOME", "/root")},
+            p = subprocess.run([DRIVER, "gen", cin, cout], env={"PATH": path_env, "HOME": os.environ.get("HOME", "/root"), **extra_env},
                                stdout=subprocess.PIPE, stderr=subprocess.STDOUT, timeout=120)
             results = [json.loads(l) for l in open(cout)] if p.returncode == 0 else None
         except subprocess.TimeoutExpired:
